@@ -201,6 +201,10 @@ def gen_series(rng):
 
 
 def gen_items(rng):
+    if rng.random() < 0.04:
+        # long sequences of small items (sizes around powers of two: chunked / batched writers and readers)
+        n = rng.choice([255, 256, 1023, 1025, 4095, 4096, 4097, 8193, 10000])
+        return [rng.choice([i, str(i), [i], {'k': i}, None]) for i in range(n)]
     n = rng.choice([0, 1, 2, 3, 5, 12, 40])
     return [gen_json(rng, rng.randint(0, 5)) if rng.random() < 0.9 else rng.choice([0, '', [], {}, False, None, 0.0]) for _ in range(n)]
 
